@@ -13,7 +13,7 @@
    This file contains only the property theorems; proofs are in Proofs/ResTracker*.v. *)
 From Coq Require Import ZArith List Bool String.
 Require Import JV.Model.ResTracker JV.Proofs.ResTracker JV.Proofs.ResTrackerSpec.
-Require Import JV.Model.TempManager JV.Proofs.TempManager.
+Require Import JV.Model.TempManager JV.Proofs.TempManager JV.Proofs.ResTrackerSend.
 Require JV.Model.TrackerStartup JV.Proofs.TrackerStartup.
 Module TS := JV.Model.TrackerStartup.
 Module TSP := JV.Proofs.TrackerStartup.
@@ -159,6 +159,25 @@ Theorem C20_parser : forall l,
 Proof. exact parse_spec. Qed.
 Print Assumptions C20_parser.
 
+(* client -> tracker: what ResourceTracker._send writes for register / unregister / maybe_unlink is
+   read back by main() as exactly that request, for EVERY ASCII name -- colons, spaces, empty name
+   included -- and, if the name holds no newline, as exactly one line *)
+Theorem C20_send_parse_roundtrip : forall name t, is_ascii name = true ->
+  classify (client_msg b_REGISTER name t) = QRegister t name /\
+  classify (client_msg b_UNREGISTER name t) = QUnregister t name /\
+  classify (client_msg b_MAYBE_UNLINK name t) = QMaybeUnlink t name /\
+  (~ In 10 name -> forall cmd, cmd = b_REGISTER \/ cmd = b_UNREGISTER \/ cmd = b_MAYBE_UNLINK ->
+     readlines (client_msg cmd name t) = [client_msg cmd name t]).
+Proof.
+  intros name t A. destruct (classify_client_msg name t A) as (H1 & H2 & H3). repeat split; auto.
+  intros N cmd C. unfold client_msg.
+  replace (cmd ++ 58 :: name ++ 58 :: rtype_name t ++ [10]) with ((cmd ++ 58 :: name ++ 58 :: rtype_name t) ++ [10])
+    by (rewrite <- !app_assoc; cbn [app]; rewrite <- !app_assoc; reflexivity).
+  apply readlines_one. rewrite !in_app_iff. cbn [In]. rewrite !in_app_iff.
+  destruct C as [-> | [-> | ->]]; destruct t; cbn; intuition discriminate.
+Qed.
+Print Assumptions C20_send_parse_roundtrip.
+
 (* soundness of the harness' synchronisation group (REGISTER s; MAYBE_UNLINK s; unknown command,
    s not in the registry): from ANY registry it leaves the registry as it was and cleans exactly s *)
 Theorem C20_sync_transparent : forall w cf r l1 l2 l3 t s,
@@ -202,6 +221,18 @@ Print Assumptions C20_manager_invariant.
 Theorem C20_manager_kill_clean : forall evs, disk_after_kill (run_events world0 evs) = ([], []).
 Proof. intros evs. apply kill_leaves_nothing, run_events_inv, Inv_world0. Qed.
 Print Assumptions C20_manager_kill_clean.
+
+(* normal interpreter exit after ANY history: the live atexit finalizers (_cleanup closures) remove
+   every temporary folder themselves -- nothing of ours is on disk even before the tracker acts --
+   and the tracker's EOF phase leaves it that way *)
+Theorem C20_manager_exit_clean : forall evs,
+  let w := exit_normally (run_events world0 evs) in
+  w_folders w = [] /\ w_files w = [] /\ disk_after_kill w = ([], []).
+Proof.
+  intros evs. apply exit_leaves_nothing; [apply run_events_inv, Inv_world0|].
+  apply run_events_final. intros c [].
+Qed.
+Print Assumptions C20_manager_exit_clean.
 
 (* the try block of _clean_temporary_resources, in the order of the code: nothing (guard false);
    or delete_folder raised and NOTHING else happened (the folder is still on disk, still cached,
